@@ -28,6 +28,12 @@ Cat14 == Cat12 \o <<
     RI(M1("A", 1), M1("B", 1), M1("C", 1), <<>>),   \* 13  A + (C) -> B
     RI(M1("D", 1), M1("E", 1), <<>>, M1("E", 1)) >> \* 14  D -> E + (E)
 Q_Dot == {"graph", "dot"}
+(* the chained shape that needs transitive fusion in split: greedy grouping of A->B, C->D,     *)
+(* E->F, C+F->G, B+E->H leaves three provisional groups chained only through the last one       *)
+Species8 == <<"A", "B", "C", "D", "E", "F", "G", "H">>
+CatChain == <<
+    R(M1("A", 1), M1("B", 1)), R(M1("C", 1), M1("D", 1)), R(M1("E", 1), M1("F", 1)),
+    R(M2("C", 1, "F", 1), M1("G", 1)), R(M2("B", 1, "E", 1), M1("H", 1)), R(M1("D", 1), M1("G", 1)) >>
 Cat6 == <<Cat12[1], Cat12[2], Cat12[3], Cat12[5], Cat12[6], Cat12[10]>>
 NoComp == <<>>
 
